@@ -81,5 +81,5 @@ package slug
 //@ func matchIgnoreRules -> (r)
 //@   pure
 //@   sweep
-//@   defines def.excl: r.Excluded == excl(ruleset, path) && r.Dominating == domin(ruleset, path)
+//@   ensures C03.use.same: r.Excluded == excl(ruleset, path) && r.Dominating == domin(ruleset, path)
 //@   ensures C03.use.off: ruleset == nil ==> !r.Excluded && !r.Dominating
